@@ -55,8 +55,8 @@ PROPS = {
     "C06": {"lean": ["QF.Props.C06", "QF.Props.C06Apply"],
             "sections": [{"section": "hist", "tag": "hist-wit", "opt": "wit=1", "quick": 1, "thorough": 1, "cover_ops": {"fapply"}},
                          hist("hist", ["apply", "fapply", "rownums"])]},
-    "C07": {"lean": ["QF.Props.C07", "QF.Props.C07Eval", "QF.Props.C07Functions", "QF.Props.C06"], "extra_ns": ["QF.Props.C07Eval", "QF.Props.C07Functions"], "sections": [hist("hist", ["eval", "eval", "permute"], quick=300, cover=["eval"])]},
-    "C08": {"lean": ["QF.Props.C08", "QF.Props.C08Project", "QF.Props.C08Guards"], "extra_ns": ["QF.Props.C08Guards"],
+    "C07": {"lean": ["QF.Props.C07", "QF.Props.C07Eval", "QF.Props.C07Functions", "QF.Props.C06", "QF.Props.C07Decode"], "extra_ns": ["QF.Props.C07Eval", "QF.Props.C07Functions", "QF.Props.C07Decode"], "sections": [hist("hist", ["eval", "eval", "permute"], quick=300, cover=["eval"])]},
+    "C08": {"lean": ["QF.Props.C08", "QF.Props.C08Project", "QF.Props.C08Guards", "QF.Props.C08Construct"], "extra_ns": ["QF.Props.C08Guards", "QF.Props.C08Construct"],
             "sections": [hist("hist", ["select", "drop", "slice", "copy"], cover=["new", "select", "drop", "slice", "copy"]),
                          {"section": "hist", "tag": "hist-new", "opt": "newonly=1", "quick": 150, "thorough": 1500, "cover_ops": {"new"}}]},
     "C09": {"lean": ["QF.Props.C09", "QF.Props.C09Equals", "QF.Props.C06", "QF.Props.C09Observe"], "extra_ns": ["QF.Props.C06", "QF.Props.C09Observe"],
@@ -100,7 +100,7 @@ PROPS = {
                          {"section": "quote", "quick": 300, "thorough": 5000, "cover_ops": {"QS"}}],
             "rule": "cases = ToJSON of a derived frame; the bytes are parsed with the spec's RFC 8259 parser (validity) and every record must denote its row (ints exactly, floats parsing back to identical bits, "
                     "NaN/null as null, strings and names decoded with invalid bytes as U+FFFD); ReadJSON of the bytes must reproduce the frame where the property promises it"},
-    "C17": {"lean": ["QF.Props.C17", "QF.Props.C17Enum", "QF.Props.C02Dispatch"], "extra_ns": ["QF.Props.C17Enum", "QF.Props.C02Dispatch"],
+    "C17": {"lean": ["QF.Props.C17", "QF.Props.C17Enum", "QF.Props.C02Dispatch", "QF.Props.C17Factory"], "extra_ns": ["QF.Props.C17Enum", "QF.Props.C02Dispatch", "QF.Props.C17Factory"],
             "sections": [{"section": "hist", "tag": "hist-wit17", "opt": "wit=enumdup", "quick": 1, "thorough": 1, "cover_ops": {"filter"}, "owns": (lambda m: True)},
                          dict({"section": "hist", "tag": "hist-enum", "opt": "enumheavy=1," + mix("filter", "sort", "distinct", "groupagg"), "quick": 200, "thorough": 2000}, cover_ops=None,
                               owns=lambda m: True),
@@ -112,7 +112,7 @@ PROPS = {
                          {"section": "sqlread", "quick": 1500, "thorough": 15000, "cover_ops": {"SR"}}],
             "rule": "cases = ToSQL of derived frames against a recording database/sql driver (every statement text and argument list compared with the spec for all dialect options) and "
                     "ReadSQL of scripted result sets (types, NULL placement, coercions, precision); distinct by transcript line"},
-    "C18": {"lean": ["QF.Props.C18", "QF.Props.C18Like"], "extra_ns": ["QF.Props.C18Like"],
+    "C18": {"lean": ["QF.Props.C18", "QF.Props.C18Like", "QF.Props.C18Matcher"], "extra_ns": ["QF.Props.C18Like", "QF.Props.C18Matcher"],
             "sections": [{"section": "like", "quick": 1500, "thorough": 20000, "cover_ops": {"M", "ME"}}],
             "rule": "cases = (pattern, case flag, cells) run through the real NewMatcher/Matches/ToUpper and through Filter on a string column and an enum column with the same cells; "
                     "compared with the documented rule and the ToUpper mirror; unicode.ToUpper and regexp matching are oracle annotations from the Go standard library"},
@@ -123,7 +123,7 @@ PROPS = {
                          {"section": "csvraw", "tag": "csvrawfaults", "opt": "faults=1", "quick": 60, "thorough": 600, "cover_ops": {"C"}},
                          {"section": "csvread", "tag": "csvreadfaults", "opt": "faults=1", "quick": 400, "thorough": 4000, "cover_ops": {"CV"}}],
             "rule": "cases = (document, schedule, failing call number); csvraw enumerates every call number of the chosen schedule per document (schedules of more than 160 calls: the first 64, the last 32 and 64 drawn ones); distinct by transcript line"},
-    "C10": {"lean": ["QF.Props.C10", "QF.Props.C10Sticky", "QF.Props.C06", "QF.Props.C06Apply", "QF.Props.C08Project", "QF.Props.C08Guards", "QF.Props.C10Guards"], "extra_ns": ["QF.Props.C10Sticky", "QF.Props.C06", "QF.Props.C08", "QF.Props.C08Guards", "QF.Props.C10Guards"], "sections": [dict(hist("hist", []), cover_ops=None)]},
+    "C10": {"lean": ["QF.Props.C10", "QF.Props.C10Sticky", "QF.Props.C06", "QF.Props.C06Apply", "QF.Props.C08Project", "QF.Props.C08Guards", "QF.Props.C10Guards", "QF.Props.C08Construct"], "extra_ns": ["QF.Props.C10Sticky", "QF.Props.C06", "QF.Props.C08", "QF.Props.C08Guards", "QF.Props.C10Guards", "QF.Props.C08Construct"], "sections": [dict(hist("hist", []), cover_ops=None)]},
 }
 
 NOT_APPLICABLE = {}
